@@ -542,7 +542,7 @@ func genCase(r *rand.Rand) Case {
 				c.Text = gen.EditText(r, c.Text)
 			}
 		}
-		c.FileName = core.Pick(r, []string{"s.num", "with space.num", "dir.with.dots.num", "ünï.num"})
+		c.FileName = core.Pick(r, []string{"s.num", "with space.num", "dir.with.dots.num", "ünï.num", "100%.num", "a%sb%d.num"})
 		c.AbsPath = r.IntN(2) == 0
 		return c
 	}
@@ -574,6 +574,29 @@ func genCase(r *rand.Rand) Case {
 		}
 		if v.Fn == "" && v.Type == "account" && r.IntN(8) == 0 {
 			c.In.Vars[v.Name] = core.Pick(r, []string{"quo\"te", "back\\slash", "ünï", "sp ace"})
+		}
+	}
+	// error paths must carry user-controlled text verbatim: provoke failures whose
+	// message quotes a value with characters that are special to printf, shells or JSON
+	if r.IntN(4) == 0 {
+		special := core.Pick(r, []string{"100%", "%d", "12%s", "5%%x", "%v%v", "a\\nb", "$HOME", "`x`", "x%20y", "'q'"})
+		switch r.IntN(3) {
+		case 0:
+			for _, v := range g.Prog.Vars {
+				if v.Fn == "" && (v.Type == "number" || v.Type == "monetary") {
+					c.In.Vars[v.Name] = special
+					break
+				}
+			}
+		case 1:
+			g.Prog.Vars = append(g.Prog.Vars, gen.VarDecl{Type: "string", Name: "zz_sp"})
+			c.In.Vars["zz_sp"] = special
+			g.Prog.Stmts = append([]gen.Stmt{{K: "send", Amt: gen.Mon(gen.Asset("USD"), gen.Num("1")), Src: &gen.Src{K: "acc", E: gen.Var("zz_sp")}, Dst: &gen.Dst{K: "acc", E: gen.Acc("a")}}}, g.Prog.Stmts...)
+			c.Text = g.Prog.Text()
+		default:
+			key := strings.NewReplacer("\\", "", "\"", "", "`", "").Replace(special)
+			g.Prog.Vars = append(g.Prog.Vars, gen.VarDecl{Type: "string", Name: "zz_mk", Fn: "meta", Args: []gen.Expr{*gen.Acc("a"), *gen.Str("absent" + key)}})
+			c.Text = g.Prog.Text()
 		}
 	}
 	all := []string{"raw", "stdin", "files", "split"}
